@@ -2,6 +2,12 @@
   C05 — types are canonical within a context and portable across contexts.
   Property theorems only.  Tables come from Zed.Generated.C05 (regenerated from
   /repo/type.go, primitive.go, context.go on every check); the model is Zed.Model.TyContext.
+
+  History: until /repo commits 2f4e3fba9 and f60030615 `CompareTypes` compared only the
+  outermost names of two named types with one underlying type, and `LookupByValue` stored the
+  caller's bytes as the type's value; the theorems on the type order, the union member order and
+  `typevalue_stable` were then proved only under a guard, with the negation of the full statement
+  proved on witnesses (findings C05:comparetypes…, C05:union-order…, C05:tvstable…, now `fixed`).
 -/
 import Zed.Model.TyContext
 import Zed.Proofs.CompareTypesTrans
@@ -27,81 +33,52 @@ theorem primitive_tables_consistent :
     (∀ e ∈ primitiveNames, e.2.2 ∈ primitiveByID.map (·.1)) ∧
     (primitiveNames.map (·.2.1)).Nodup := by decide
 
-/-! ### the order on types (`zed.CompareTypes`)
-
-  Full statement: `cmpTy` is a total order on structural types (zero only on equal types,
-  antisymmetric, transitive).  Reflexivity and antisymmetry hold for all types.  "Zero only on
-  equal types" and transitivity are FALSE of the current code (`not_compareTypes_eq_iff`,
-  `not_compareTypes_trans`: when two named types share the underlying type only their outermost
-  names are compared) and are proved under the guard `Ty.nnn` (no named type directly wraps a
-  named type) in the `_partial` theorems. -/
+/-! ### the order on types (`zed.CompareTypes`) is a total order on all structural types -/
 
 theorem compareTypes_refl (a : Ty) : cmpTy a a = .eq := cmpTy_refl a
 
 theorem compareTypes_antisymm (a b : Ty) : cmpTy b a = (cmpTy a b).swap := cmpTy_swap a b
+
+/-- zero only on equal types -/
+theorem compareTypes_eq_iff (a b : Ty) : cmpTy a b = .eq ↔ a = b := cmpTy_eq_iff a b
+
+theorem compareTypes_trans (a b c : Ty) : cmpTy a b ≠ .gt → cmpTy b c ≠ .gt → cmpTy a c ≠ .gt :=
+  (cmpTy_STr a b c).le
 
 def tInt : Ty := .prim 9
 /-- x=(y=int64) -/
 def tXY : Ty := .named [120] (.named [121] tInt)
 /-- x=(z=int64) -/
 def tXZ : Ty := .named [120] (.named [122] tInt)
-def tRA : Ty := .record (.cons [97] tXY .nil)
-def tRB : Ty := .record (.cons [97] tXZ .nil)
-/-- q={a:x=(y=int64)} -/
-def tQ : Ty := .named [113] tRA
 
-theorem not_compareTypes_eq_iff : ¬ (∀ a b : Ty, cmpTy a b = .eq → a = b) := by
-  intro h
-  exact absurd (h tXY tXZ (by decide)) (by decide)
-
-theorem not_compareTypes_trans :
-    ¬ (∀ a b c : Ty, cmpTy a b ≠ .gt → cmpTy b c ≠ .gt → cmpTy a c ≠ .gt) := by
-  intro h
-  exact h tQ tRB tRA (by decide) (by decide) (by decide)
-
-theorem compareTypes_eq_iff_partial (a b : Ty) (ha : a.nnn = true) (hb : b.nnn = true) :
-    cmpTy a b = .eq ↔ a = b := cmpTy_eq_iff a b ha hb
-
-theorem compareTypes_trans_partial (a b c : Ty) (ha : a.nnn = true) (hb : b.nnn = true) (hc : c.nnn = true) :
-    cmpTy a b ≠ .gt → cmpTy b c ≠ .gt → cmpTy a c ≠ .gt :=
-  (cmpTy_STr a b c ha hb hc).le
-
-/-- non-vacuity: the guard holds for ordinary named types and fails for the witnesses -/
-example : tRA.nnn = false ∧ (Ty.record (.cons [97] (.named [120] tInt) .nil)).nnn = true := by decide
+/-- the witnesses of the former defect are now ordered (by the inner names `y` < `z`) -/
+example : cmpTy tXY tXZ = .lt ∧ cmpTy (.named [120] tInt) tXY = .lt := by decide
 
 /-! ### union member order -/
 
-private theorem tyLess_strictTotal : StrictTotalOn tyLess (fun t => t.nnn = true) where
+private theorem tyLess_strictTotal : StrictTotalOn tyLess (fun _ => True) where
   asymm := by
     intro a b _ _ h
     simp only [tyLess, beq_iff_eq] at h
     simp [tyLess, cmpTy_swap a b, h, Ordering.swap]
   trans_ge := by
-    intro a b c ha hb hc h1 h2
+    intro a b c _ _ _ h1 h2
     simp only [tyLess, beq_eq_false_iff_ne] at *
-    exact (cmpTy_STr a b c ha hb hc).ge h1 h2
+    exact (cmpTy_STr a b c).ge h1 h2
   antisymm := by
-    intro a b ha hb h1 h2
+    intro a b _ _ h1 h2
     simp only [tyLess, beq_eq_false_iff_ne] at *
     rw [cmpTy_swap a b] at h2
-    apply (cmpTy_eq_iff a b ha hb).mp
+    apply (cmpTy_eq_iff a b).mp
     revert h1 h2
     cases cmpTy a b <;> simp [Ordering.swap]
 
-/-- Full statement: `lookupUnion c ts' = lookupUnion c ts` for every permutation `ts'` of `ts` —
-    FALSE of the current code (`not_union_order_irrelevant`); proved when the members satisfy
-    the guard of the type order. -/
-theorem union_order_irrelevant_partial (c : Ctx) (ts ts' : List Ty) (hp : ts'.Perm ts)
-    (hg : ∀ t ∈ ts, t.nnn = true) : c.lookupUnion ts' = c.lookupUnion ts := by
+/-- `LookupTypeUnion` yields the same type (and the same context) for every order in which the
+    members are listed -/
+theorem union_order_irrelevant (c : Ctx) (ts ts' : List Ty) (hp : ts'.Perm ts) :
+    c.lookupUnion ts' = c.lookupUnion ts := by
   unfold Ctx.lookupUnion sortTys
-  rw [insertionSort_eq_of_perm tyLess _ tyLess_strictTotal ts ts' hp hg]
-
-theorem not_union_order_irrelevant :
-    ¬ (∀ (c : Ctx) (ts ts' : List Ty), ts'.Perm ts → (c.lookupUnion ts').1 = (c.lookupUnion ts).1) := by
-  intro h
-  have := h Ctx.empty [tXY, tXZ] [tXZ, tXY] (List.Perm.swap _ _ _)
-  revert this
-  decide
+  rw [insertionSort_eq_of_perm tyLess _ tyLess_strictTotal ts ts' hp (fun _ _ => trivial)]
 
 /-! ### serialized type values
 
@@ -130,7 +107,8 @@ example : (Ty.record (.cons [97] (.named [120] tInt) (.cons [98] (.map tInt (.pr
 
   `Ctx.Inv c` (Proofs/ContextInv): no structure is entered twice (`byID.Nodup`), every entered
   type is well-formed, `toType` maps the canonical serialization of every entered type to that
-  type and nothing else to it, every value of `toType` and `typedefs` is a type of the context. -/
+  type and nothing else to it, every value of `toType` and `typedefs` is a type of the context,
+  and the stored value of a type (`toValue`) is its canonical serialization. -/
 
 /-- **context_canonical** (sequential): after any history of operations (record / array / set /
     map / union / enum / error / named lookups, LookupByValue with arbitrary bytes, TranslateType
@@ -163,21 +141,32 @@ theorem translate_roundtrip (c₁ c₂ : Ctx) (h₁ : c₁.Inv) (h₂ : c₂.Inv
     (c₂.translate t).1 = some t ∧ ((c₁.translate t).1 = some t) :=
   ⟨(Ctx.translate_spec c₂ h₂ t w).1, (Ctx.translate_spec c₁ h₁ t w).1⟩
 
-/-! ### what is false of the current code -/
+/-- the bytes `LookupTypeValue` returns are the canonical serialization of the type -/
+theorem typevalue_canonical (c : Ctx) (hc : c.Inv) (t : Ty) (w : t.wf = true) (b : Bytes)
+    (h : (c.lookupTypeValue t).1 = some b) : b = encodeTV t :=
+  Ctx.lookupTypeValue_canonical c hc t w b h
 
-/-- Full statement `typevalue_stable`: the bytes `lookupTypeValue t` returns never change over
-    any later operation.  FALSE: `LookupByValue` stores the caller's bytes as the type's value.
-    Witness: context holding `|[int8]|`; LookupByValue of its encoding followed by one byte. -/
-theorem not_typevalue_stable :
-    ¬ (∀ (c : Ctx) (t : Ty) (b : Bytes) (op : Ctx.Op) (env : Ctx.Env), c.Inv →
-        (c.lookupTypeValue t).1 = some b →
-        ((c.exec env op).2.2.lookupTypeValue t).1 = some b) := by
-  intro h
-  have hc := (Ctx.runOps_good [Ctx.Op.set (.prim 6)] Ctx.empty [] Ctx.inv_empty (by intro r hr; simp at hr)).1
-  have := h (Ctx.runOps [Ctx.Op.set (.prim 6)] Ctx.empty []).1 (.set (.prim 6)) [32, 6] (.byValue [32, 6, 0]) [] hc
-    (by decide)
-  revert this
-  decide
+/-- **typevalue_stable**: a type value obtained from the context never changes over any later
+    history of operations (including LookupByValue with arbitrary bytes) -/
+theorem typevalue_stable (c : Ctx) (hc : c.Inv) (env : Ctx.Env) (he : Ctx.EnvOk c env) (t : Ty) (w : t.wf = true)
+    (b : Bytes) (h : (c.lookupTypeValue t).1 = some b) (ops : List Ctx.Op) (b' : Bytes)
+    (h' : ((Ctx.runOps ops c env).1.lookupTypeValue t).1 = some b') : b' = b := by
+  rw [Ctx.lookupTypeValue_canonical c hc t w b h,
+    Ctx.lookupTypeValue_canonical _ (Ctx.runOps_good ops c env hc he).1 t w b' h']
+
+/-- the witness of the former defect: after `LookupByValue` of `|[int8]|` followed by one byte the
+    value of `|[int8]|` is still its canonical serialization -/
+example : (((Ctx.runOps [Ctx.Op.set (.prim 6)] Ctx.empty []).1.exec [] (.byValue [32, 6, 0])).2.2.lookupTypeValue
+    (.set (.prim 6))).1 = some [32, 6] := by decide
+
+/-! ### what is false of the current code: concurrent decoders
+
+  Every `Lookup*` call is one critical section, so an execution of any number of goroutines
+  is a sequence of the model's step functions.  `context_canonical` quantifies over all
+  sequences of operations, hence over all interleavings of the atomic ones (record, array, set,
+  map, union, enum, error, named lookups, LookupTypeDef).  `LookupByValue` is *not* atomic
+  (DecodeTypeValue runs outside the mutex, its last critical section is `Ctx.storeByValue`); for
+  it the interleaved statements are FALSE: -/
 
 /-- Full statement `nameref_atomicity`: under interleaving of the decoders' atomic steps a
     NameRef resolves to the decoder's own preceding NameDef.  FALSE on a shared context: between
@@ -190,5 +179,30 @@ theorem not_nameref_atomicity :
   have := h Ctx.empty [120] (.prim 9) (.prim 25)
   revert this
   decide
+
+/-- what decoder A's bytes denote: `{f:x=int64, g:x}` -/
+def uA : Ty := .record (.cons [102] (.named [120] tInt) (.cons [103] (.named [120] tInt) .nil))
+
+/-- the schedule  A: NameDef x=int64 · B: NameDef x=string · A: NameRef x · A: LookupTypeRecord ·
+    A: store (last step of LookupByValue) -/
+def interleaved : Ctx :=
+  let c1 := (Ctx.empty.lookupNamed [120] tInt).2
+  let a1 := (Ctx.empty.lookupNamed [120] tInt).1
+  let c2 := (c1.lookupNamed [120] (.prim 25)).2
+  let a2 := c2.lookupTypeDef [120]
+  match a1, a2 with
+  | some f, some g =>
+    let r := c2.lookupRecord [([102], f), ([103], g)]
+    match r.1 with
+    | some t => r.2.storeByValue (encodeTV uA) t
+    | none => c2
+  | _, _ => c2
+
+/-- after that schedule the context maps the canonical serialization of `{f:x=int64, g:x}` to a
+    different type, so translating that type into the context no longer yields it: the
+    invariant of `context_canonical` (and `translate_roundtrip`) does not survive interleaved
+    `LookupByValue`s that bind one name differently. -/
+theorem not_context_canonical_interleaved :
+    uA.wf = true ∧ (interleaved.translate uA).1 ≠ some uA := by decide
 
 end Zed.Props.C05
